@@ -182,6 +182,9 @@ fn build_faults<C: Suite>(
         let mut rr = r2.clone();
         rr.insert(*sender, round2::Package::new(SigningShare::<C>::new(r2[sender].signing_share().to_scalar() + c * sum)));
         out.push(Fault { name: "commitment-length-threshold-plus-65536".into(), class: "commitment-length-wraps-u16".into(), step: Step::Part2, attributable: false, slot: Some(*sender), r1_for_part2: m2.clone(), r1_for_part3: m2, r2: rr });
+        // (Presenting this contribution at part3 only - part2 having seen the honest one - is *not* a fault of the library:
+        // part3 documents that it must be given the round-one packages used in part2, and relies on part2's length check.
+        // A variant that did so was tried, produced key material on the unchanged tree, and was removed as a false alarm.)
     }
     // filing faults of round one
     {
